@@ -1,8 +1,9 @@
 SPECIFICATION Spec
 CONSTANTS
-  MaxBytes = 3
-  MaxItems = 3
+  MaxBytes = 2
+  MaxItems = 2
   MaxRaw = 5
+  Deep = TRUE
   Modes = {"value", "blocks", "bytes", "ocf"}
 INVARIANTS T_Encodable T_RoundTrip T_SelfDelimiting T_Typed T_Table T_Blocks T_Bytes T_Ocf
 CHECK_DEADLOCK FALSE
